@@ -49,7 +49,7 @@ import (
 // ======================= BATCHERRT =======================
 
 type BCase struct {
-	Kind      string `json:"kind"` // trickle-one-key | trickle-many-keys | idle-key-beside-busy-key | memory-pressure
+	Kind      string `json:"kind"` // trickle-one-key | trickle-many-keys | idle-key-beside-busy-key | memory-pressure | backlog
 	TickMs    int    `json:"tick_ms"`
 	IdleAgeMs int    `json:"idle_age_ms"`
 	MaxAgeMs  int    `json:"max_age_ms"`
@@ -156,12 +156,13 @@ func runBatcher(c BCase) bResult {
 		for i := range rec {
 			rec[i] = 'x'
 		}
-		copy(rec, fmt.Sprintf("%020d", id))
-		m := &marshaller.MarshalledMessage{Operation: "INSERT", Table: "public.t", Json: rec, TimeBasedKey: "7-1", WalStart: id, Transaction: "7", PartitionKey: key}
 		mu.Lock()
-		fedAt[id] = time.Now()
-		mu.Unlock()
+		my := id
 		id++
+		fedAt[my] = time.Now()
+		mu.Unlock()
+		copy(rec, fmt.Sprintf("%020d", my))
+		m := &marshaller.MarshalledMessage{Operation: "INSERT", Table: "public.t", Json: rec, TimeBasedKey: "7-1", WalStart: my, Transaction: "7", PartitionKey: key}
 		select {
 		case in <- m:
 		case <-time.After(2 * time.Second): // the batcher stopped taking input: the bound check will say so
@@ -171,10 +172,28 @@ func runBatcher(c BCase) bResult {
 	if c.Kind == "idle-key-beside-busy-key" {
 		feed("quiet")
 	}
-	for time.Since(start) < time.Duration(c.DurMs)*time.Millisecond {
+	if c.Kind == "backlog" {
+		// a backlog: eight senders are parked on the batcher's input at any moment, for the whole duration:
+		// whenever the batcher looks, a record is already waiting (a burst, or catching up after a stall)
+		var fw sync.WaitGroup
+		for f := 0; f < 8; f++ {
+			fw.Add(1)
+			go func(f int) {
+				defer fw.Done()
+				for n := 0; time.Since(start) < time.Duration(c.DurMs)*time.Millisecond; n++ {
+					feed(fmt.Sprintf("k%d", (f+n)%c.Keys))
+				}
+			}(f)
+		}
+		fw.Wait()
+	}
+	for c.Kind != "backlog" && time.Since(start) < time.Duration(c.DurMs)*time.Millisecond {
+		mu.Lock()
+		cur := id
+		mu.Unlock()
 		k := "busy"
 		if c.Keys > 1 {
-			k = fmt.Sprintf("k%d", int(id)%c.Keys)
+			k = fmt.Sprintf("k%d", int(cur)%c.Keys)
 		}
 		feed(k)
 		time.Sleep(time.Duration(c.GapMs) * time.Millisecond)
@@ -434,8 +453,8 @@ func init() {
 		j, _ := json.Marshal(r)
 		return string(j) + "\n"
 	}, Run: func(rng *rand.Rand, n int, corpusDir string, rep *core.Report) string {
-		rep.Rule = "wall-clock TEST of the runtime residue of C16 (not a proof): the real StartBatching with tick 20-30 ms, idle age 40-60 ms, max age 80-120 ms, a batch size never reached, fed steadily every 2-5 ms for 0.6-0.9 s on one key, on many keys, beside an idle key, or under a small memory limit; every record must reach a worker within max age + 2 ticks + 250 ms slack (memory-pressure cases: three ticks after the input stopped the open batches hold less than the soft limit) while input keeps arriving. A case is reported only after failing 3 times in a row. Non-trivial: every case (hundreds of records each)."
-		kinds := []string{"trickle-one-key", "trickle-many-keys", "idle-key-beside-busy-key", "memory-pressure"}
+		rep.Rule = "wall-clock TEST of the runtime residue of C16 (not a proof): the real StartBatching with tick 20-30 ms, idle age 40-60 ms, max age 80-120 ms, a batch size never reached, fed steadily every 2-5 ms for 0.6-0.9 s on one key, on many keys, beside an idle key, under a small memory limit, or as a BACKLOG (eight senders always parked on the input for 0.5-0.7 s: whenever the batcher looks, a record is waiting); every record must reach a worker within max age + 2 ticks + 250 ms slack (memory-pressure cases: three ticks after the input stopped the open batches hold less than the soft limit) while input keeps arriving. A case is reported only after failing 3 times in a row. Non-trivial: every case (hundreds of records each)."
+		kinds := []string{"trickle-one-key", "trickle-many-keys", "idle-key-beside-busy-key", "memory-pressure", "backlog"}
 		cases := make([]BCase, n)
 		for i := range cases {
 			c := BCase{Kind: kinds[i%len(kinds)], TickMs: 20 + rng.Intn(11), GapMs: 2 + rng.Intn(4), DurMs: 600 + rng.Intn(300), Keys: 1,
@@ -444,6 +463,9 @@ func init() {
 			c.MaxAgeMs = 4 * c.TickMs
 			if c.Kind == "trickle-many-keys" {
 				c.Keys = 5 + rng.Intn(40)
+			}
+			if c.Kind == "backlog" {
+				c.Keys, c.GapMs, c.DurMs = 3, 0, 500+rng.Intn(200)
 			}
 			if c.Kind == "memory-pressure" {
 				c.RecBytes = 1000
